@@ -15,9 +15,13 @@ NA = {
  "C17": "equivalence of two configurations over all requests - pure; its isolation clause is exercised by the C05/C06 workloads",
 }
 
-PENDING = ["C18", "C19"]
+PENDING = ["C18"]
 
 CHECKS = {
+ "C19": dict(cat="exploration", design="DESIGN.md §4 C19",
+   technique="deterministic simulation: decision-table scenarios on a recording writer, and scheduler-interleaved transactions on the real serial/concurrent writers over a simulated disk and clock, under the race detector",
+   text="Part 1 draws audit engine (configured and ctl-switched), relevant-status pattern, parts, format, log/nolog/auditlog/noauditlog combinations, interruptions and engine modes and compares record count, well-formedness, listed rules and error-callback multiplicity with a reference decision function written from the statement. Part 2 interleaves 2-6 tasks finishing transactions on one WAF whose real serial or concurrent writer writes to the simulated disk, with yields inside the writers and a simulated clock crossing minute/day boundaries; the files are parsed afterwards: whole records, each transaction exactly once, paths derived from timestamp and id, index entries not interleaved.",
+   note="trusted: the reference decision function (RelevantOnly only with a pattern), JSON/native well-formedness parsers; parts algebra of ctl:auditLogParts not modelled"),
  "C06": dict(cat="exploration", design="DESIGN.md §4 C06",
    technique="deterministic simulation: seeded cooperative scheduler over real goroutines with race-detector-invisible hand-over; race detector + per-transaction differential oracle",
    text="2-8 simulated tasks (transactions on one shared WAF, WAF builders/closers sharing the process-wide pattern cache and transformation-id table, pool churners) are interleaved by a seeded scheduler (random walk, PCT, round-robin) with yield points at every sync/atomic operation, every statement of the shared-state packages and every rule evaluation. The Go race detector observes the real code under each chosen interleaving; additional oracles: no panic, no deadlock, pool exclusivity, each transaction's outcome equals its outcome alone. The thorough tier repeats the search on the multiphase-evaluation build.",
